@@ -492,6 +492,11 @@ func journalRecorder(mu *sync.Mutex, evs *[]jev, dir string, client int) func(op
 			var n int
 			fmt.Sscan(string(data), &n)
 			*evs = append(*evs, jev{client, 2, n, true})
+		case strings.HasSuffix(name, ".zng") && op.Kind == "exists":
+			var n int
+			if _, e := fmt.Sscanf(name, "%d.zng", &n); e == nil {
+				*evs = append(*evs, jev{client, 3, n, err == nil})
+			}
 		case strings.HasSuffix(name, ".zng") && op.Kind == "putx":
 			var n int
 			if _, e := fmt.Sscanf(name, "%d.zng", &n); e == nil {
